@@ -124,17 +124,24 @@ func gen(r *rand.Rand, idx int) *gscript {
 	}
 	k := 2 + r.Intn(5)
 	type golden struct {
-		name string
-		data string
+		name   string
+		data   string
+		arname string // the entry's name as the archive spells it (a variable in it is expanded when the entry is unpacked)
+	}
+	spellEntry := func(name string) string {
+		if r.Intn(4) == 0 {
+			return "$WORK/" + name
+		}
+		return name
 	}
 	gnames := []string{"want1", "want2", "golden/out.txt", "golden/err.txt", "w3.golden", "deep/er/want", "want7"}
 	r.Shuffle(len(gnames), func(i, j int) { gnames[i], gnames[j] = gnames[j], gnames[i] })
 	var golds []golden
 	for i := 0; i < k; i++ {
-		golds = append(golds, golden{gnames[i], fixNL(contents[r.Intn(len(contents)-5)])}) // as txtar stores it
+		golds = append(golds, golden{gnames[i], fixNL(contents[r.Intn(len(contents)-5)]), spellEntry(gnames[i])}) // as txtar stores it
 	}
 	// a data entry that is never a golden
-	extra := golden{"input.txt", "input data\n"}
+	extra := golden{"input.txt", "input data\n", spellEntry("input.txt")}
 	var sb strings.Builder
 	final := map[string]string{} // golden name -> last actual recorded for update
 	seenActuals := map[string]map[string]bool{}
@@ -277,7 +284,7 @@ func gen(r *rand.Rand, idx int) *gscript {
 	pos := r.Intn(len(order) + 1)
 	order = append(order[:pos:pos], append([]golden{extra}, order[pos:]...)...)
 	for _, e := range order {
-		before.Files = append(before.Files, xt.File{Name: e.name, Data: []byte(e.data)})
+		before.Files = append(before.Files, xt.File{Name: e.arname, Data: []byte(e.data)})
 	}
 	g.text = string(xt.Format(before))
 	if len(final) > 0 && !g.wantFail {
@@ -295,7 +302,7 @@ func gen(r *rand.Rand, idx int) *gscript {
 				}
 				g.updates++
 			}
-			exp.Files = append(exp.Files, xt.File{Name: e.name, Data: []byte(d)})
+			exp.Files = append(exp.Files, xt.File{Name: e.arname, Data: []byte(d)})
 		}
 		g.expect = exp
 		g.rerunPasses = allRepresentable && !g.unquotable
@@ -356,7 +363,7 @@ func runOne(file string, update bool, style tsh.Style, setupCd, uniqueNames bool
 func main() {
 	tsh.Main("C16", "exploration", 10*time.Minute, func(r *vlib.Run) {
 		run = r
-		r.Rule("scripts with 2-6 golden entries (some nested names) plus a data entry; actual contents come from stdout, stderr or a file and are drawn from empty / newline-terminated / CRLF / invalid UTF-8 / '>'-prefixed / no-final-newline / marker-line contents; goldens match or not, some are compared twice (last actual wins), interleaved with '! cmp', matching 'cmpenv' and comparisons against files created at run time; a third of the runs set Params.RequireUniqueNames; a quarter of the scripts start in $WORK/startdir because Params.Setup moved Env.Cd there (archive entries are then spelled ../name or $WORK/name); 10% dedicated scenarios in which the only mismatch must not be repaired (cmpenv, file outside the archive, '! cmp' of equal files), 10% with content that cannot be quoted. Non-trivial = distinct sequence of (update content / match / other) kinds with at least one update or a dedicated scenario.")
+		r.Rule("scripts with 2-6 golden entries (some nested names) plus a data entry; actual contents come from stdout, stderr or a file and are drawn from empty / newline-terminated / CRLF / invalid UTF-8 / '>'-prefixed / no-final-newline / marker-line contents; goldens match or not, some are compared twice (last actual wins), interleaved with '! cmp', matching 'cmpenv' and comparisons against files created at run time; a third of the runs set Params.RequireUniqueNames; a quarter of the scripts start in $WORK/startdir because Params.Setup moved Env.Cd there (archive entries are then spelled ../name or $WORK/name); a quarter of the entries are named `$WORK/name` in the archive itself (expanded when unpacked; the name in the file must stay as written); 10% dedicated scenarios in which the only mismatch must not be repaired (cmpenv, file outside the archive, '! cmp' of equal files), 10% with content that cannot be quoted. Non-trivial = distinct sequence of (update content / match / other) kinds with at least one update or a dedicated scenario.")
 		r.Assume("content that has marker lines and no final newline (or invalid UTF-8 with marker lines) cannot be represented by any implementation: for it only 'the script file is not corrupted' is asserted")
 		base := vlib.Scratch()
 		rng := r.Rand("scripts")
